@@ -119,7 +119,7 @@ impl Prop for C02 {
         ]
     }
     fn cases(tier: Tier) -> u64 {
-        tier.pick(6000, 150_000)
+        tier.pick(15_000, 300_000)
     }
     fn strategy(tier: Tier) -> BoxedStrategy<Case> {
         gen::bb_case(tier, false, true).prop_map(make_case).boxed()
